@@ -37,20 +37,21 @@ variable {P : Type} (sh : P → List Nat)
 theorem genRebuild_eq (im : Img P) (fp : P) : genRebuild sh im fp = rebuild sh im fp := by
   unfold genRebuild rebuild
   cases hm : im.mask with
-  | none => simp only [Img.maskE, hm] ; (repeat' split) <;> simp_all
+  | none => simp only [HasMask.maskOf, Img.maskE, hm] ; (repeat' split) <;> simp_all
   | some m =>
-    cases hr : resizeMask m (sh fp) <;> simp only [Img.maskE, hm, hr, Except.bind, Except.map] <;>
+    cases hr : resizeMask m (sh fp) <;>
+      simp only [HasMask.maskOf, Img.maskE, hm, hr, Except.bind, Except.map] <;>
       (repeat' split) <;> simp_all
 
 theorem genRebuildCentres_eq (im : Img P) (fp : P) (c : Centres) :
     genRebuildCentres im fp c = rebuildCentres im fp c := by
   unfold genRebuildCentres rebuildCentres
   cases hm : im.mask with
-  | none => simp only [Img.maskE, hm] ; (repeat' split) <;>
+  | none => simp only [HasMask.maskOf, Img.maskE, hm] ; (repeat' split) <;>
       simp_all [genCentresCorrection_eq, applyCorr, correctPt_eq]
   | some m =>
     cases hr : sampleMask m c <;>
-      simp only [Img.maskE, hm, hr, genSampleMask_eq, Except.bind, Except.map] <;>
+      simp only [HasMask.maskOf, Img.maskE, hm, hr, genSampleMask_eq, Except.bind, Except.map] <;>
       (repeat' split) <;> simp_all [genCentresCorrection_eq, applyCorr, correctPt_eq]
 
 theorem genNdfeature_eq (f : P → Except Err P) (x : Arg P) : genNdfeature sh f x = ndfeature sh f x := by
